@@ -84,6 +84,9 @@ func Loop(engineName string, exec Exec) int {
 	for i := 0; i < *FlagCount; i++ {
 		seed := *FlagFrom + uint64(i)
 		spec := run.GenerateFor(*FlagProp, seed, *FlagTier, run.AutoYield)
+		if i == 0 && (spec.Kind == "shared-expr" || spec.Kind == "per-task-expr" || spec.Kind == "shared-doc") {
+			spec.ColdStart = true // first run of this process
+		}
 		if *FlagGenspec {
 			os.Stdout.Write(run.MarshalSpec(spec))
 			os.Stdout.WriteString("\n")
